@@ -287,6 +287,47 @@ func opPathAppend(j, idx int) op {
 	}}
 }
 
+// saltHasher is a third hasher: Poseidon with one more field element appended to every input of
+// Hash.  Results that only depend on Hash (booleans, integers) differ from the default hasher's.
+type saltHasher struct{ merklize.PoseidonHasher }
+
+func (s saltHasher) Hash(in []*big.Int) (*big.Int, error) {
+	return s.PoseidonHasher.Hash(append(append([]*big.Int{}, in...), big.NewInt(7)))
+}
+
+// opBool hashes a boolean under a given hasher through two library paths and checks the result
+// against the hasher's own Hash([0|1]) computed directly: with several hashers in one process every
+// hasher must get its own answer, whatever was hashed before by whom.
+func opBool(name string, h merklize.Hasher, val bool) op {
+	return op{kind: "hash", arg: fmt.Sprintf("bool|%s|%v", name, val), run: func(e *mixEnv) string {
+		in := int64(0)
+		if val {
+			in = 1
+		}
+		want, err := h.Hash([]*big.Int{big.NewInt(in)})
+		if err != nil {
+			return errClass(err)
+		}
+		v, err := merklize.NewValue(h, val)
+		if err != nil {
+			return errClass(err)
+		}
+		got1, err := v.MtEntry()
+		if err != nil {
+			return errClass(err)
+		}
+		got2, err := merklize.HashValueWithHasher(h, xsd+"boolean", val)
+		if err != nil {
+			return errClass(err)
+		}
+		obs := fmt.Sprintf("value=%s;hashvalue=%s", got1, got2)
+		if got1.Cmp(want) != 0 || got2.Cmp(want) != 0 {
+			return selfCheck + fmt.Sprintf(" boolean %v under hasher %s: the hasher's own Hash gives %s, the library %s", val, name, want, obs)
+		}
+		return obs
+	}}
+}
+
 // altHasher is a second hasher (Poseidon over the message with a marker byte in front).  Ops
 // that configure it through merklize.Options run next to ops that use the package default, so a
 // code path that lets a per-call option leak into the package-level default shows up as a data
@@ -452,6 +493,11 @@ func buildPool(seed int64, sharedDoc testDoc, resolve func(dotted string) (merkl
 	}
 	add(opHash(xsd+"double", float64(rng.Intn(1_000_000))/8))
 	add(opHash(xsd+"string", []byte("unsupported go type")))
+	for _, val := range []bool{true, false} {
+		add(opBool("poseidon", merklize.PoseidonHasher{}, val))
+		add(opBool("salted", saltHasher{}, val))
+		add(opBool("alt", altHasher{}, val))
+	}
 	for j := 0; j < 2; j++ {
 		for idx := 0; idx < 16; idx++ {
 			add(opPathAppend(j, idx))
@@ -612,8 +658,8 @@ func runMix(cfg *config, out *output) error {
 		}
 		want[i] = obs
 		if strings.HasPrefix(obs, selfCheck) {
-			out.addMismatch(mismatch{Goroutine: -1, Op: i, Kind: "load-wrong-document-url",
-				What: "sequential oracle: " + pool[i].kind + "(" + pool[i].arg + ")", Want: "DocumentURL = requested URL", Got: obs})
+			out.addMismatch(mismatch{Goroutine: -1, Op: i, Kind: "self-check",
+				What: "sequential oracle: " + pool[i].kind + "(" + pool[i].arg + ")", Want: "the operation's own expectation (see got)", Got: obs})
 		}
 		if strings.HasPrefix(pool[i].kind, "merklize") {
 			mzDur += time.Since(ts)
@@ -636,8 +682,8 @@ func runMix(cfg *config, out *output) error {
 			obs = versionedTag
 		}
 		if strings.HasPrefix(obs, selfCheck) && obs != want[i] {
-			out.addMismatch(mismatch{Goroutine: -1, Op: i, Kind: "load-wrong-document-url",
-				What: "sequential oracle (warm): " + pool[i].kind + "(" + pool[i].arg + ")", Want: "DocumentURL = requested URL", Got: obs})
+			out.addMismatch(mismatch{Goroutine: -1, Op: i, Kind: "self-check",
+				What: "sequential oracle (second pass): " + pool[i].kind + "(" + pool[i].arg + ")", Want: "the operation's own expectation (see got)", Got: obs})
 		}
 		if obs != want[i] {
 			out.addMismatch(mismatch{Goroutine: -1, Op: i, Kind: "oracle-nondeterministic",
